@@ -135,7 +135,31 @@ def witness_slow_d3(theta, N, seed):
     return _slow(theta, N, seed, 3)
 
 
+def _globalrng(theta, N, seed, D):
+    """The most common way users write a stochastic model: seed numpy's process-global generator, then draw from it."""
+    out = _witness(theta, N, seed, D)
+    np.random.seed(int(seed) % 2**32)
+    P = len(np.asarray(theta).ravel())
+    flat = out.reshape(-1)
+    if len(flat) > P + HEADER:
+        flat[P + HEADER:] = np.random.normal(size=len(flat) - P - HEADER) * (1.0 + abs(float(np.asarray(theta).ravel()[0])))
+    return out
+
+
+def witness_globalrng_d1(theta, N, seed):
+    return _globalrng(theta, N, seed, 1)
+
+
+def witness_globalrng_d2(theta, N, seed):
+    return _globalrng(theta, N, seed, 2)
+
+
+def witness_globalrng_d3(theta, N, seed):
+    return _globalrng(theta, N, seed, 3)
+
+
 WITNESS = {
+    ("globalrng", 1): witness_globalrng_d1, ("globalrng", 2): witness_globalrng_d2, ("globalrng", 3): witness_globalrng_d3,
     ("slow", 1): witness_slow_d1, ("slow", 2): witness_slow_d2, ("slow", 3): witness_slow_d3,
     ("mut", 1): witness_mut_d1, ("mut", 2): witness_mut_d2, ("mut", 3): witness_mut_d3,
     ("plain", 1): witness_d1, ("plain", 2): witness_d2, ("plain", 3): witness_d3,
